@@ -169,3 +169,51 @@ func H_C08_clone_shared_child() {
 	verifAssert(hExact(before, hSnapAny(c)), "mutating the clone leaves the original unchanged")
 	verifReach("end")
 }
+
+// lists that carry spare capacity (emptied or shortened by Pop/Delete), at the root or nested: the clone
+// must not sit on the original's backing array — observable when both sides append afterwards.
+func H_C08_clone_spare_capacity() {
+	verifBound("SPARE", 2)
+	n := nondetIntRange(0, 2)
+	spare := nondetIntRange(1, 2)
+	l := hListWithSpare(n, spare)
+	for i := 0; i < n; i++ {
+		l.Replace(i, nondetInt())
+	}
+	var c any
+	var inC, inCl List
+	switch nondetIntRange(0, 2) {
+	case 0:
+		c = List(l)
+	case 1:
+		c = NewList(l, 1)
+	default:
+		c = NewObject("k", l)
+	}
+	before := hSnapAny(c)
+	cl := hCloneAny(c)
+	verifAssert(hExact(before, hSnapAny(cl)), "the clone has the same content")
+	switch x := cl.(type) {
+	case List:
+		inC, inCl = l, x
+		if x.Count() > 0 && x.TypeOf(0) == TypeList && c != any(List(l)) {
+			inCl = x.GetList(0)
+		}
+	case Object:
+		inC, inCl = l, x.GetList("k")
+	}
+	verifAssert(!verifSameBacking(inC, inCl), "no list of the clone shares its backing array with a list of the original")
+	a, b := nondetInt(), nondetInt()
+	if nondetIntRange(0, 1) == 0 {
+		inCl.Add(a)
+		mid := hSnapAny(cl)
+		inC.Add(b)
+		verifAssert(hExact(mid, hSnapAny(cl)), "appending to the original after appending to the clone leaves the clone unchanged")
+	} else {
+		inC.Add(a)
+		mid := hSnapAny(c)
+		inCl.Add(b)
+		verifAssert(hExact(mid, hSnapAny(c)), "appending to the clone after appending to the original leaves the original unchanged")
+	}
+	verifReach("end")
+}
